@@ -18,7 +18,7 @@ open Vgi Vgi.Token
 record's plaintext is `pt`. -/
 def Minted (tbl : List SealRec) (key : Bytes) (version : UInt8) (aad token : Bytes) (pt : Plain) : Prop :=
   ∃ r ∈ tbl, r.key = normKey key ∧ r.aad = aad ∧ r.pt = pt ∧
-    b64Std token = some (version :: (r.nonce ++ r.ct)) ∧ r.nonce.length = nonceLen
+    b64Std token = some (version :: (r.nonce ++ r.ct)) ∧ r.nonce.length = nonceLen ∧ tagLen ≤ r.ct.length
 
 theorem aeadOpen_some {tbl : List SealRec} {key nonce aad ct : Bytes} {pt : Plain}
     (h : aeadOpen tbl key nonce aad ct = some pt) :
@@ -70,14 +70,17 @@ theorem openToken_ok {tbl : List SealRec} {key : Bytes} {v : UInt8} {tok aad : B
         · rename_i pt' hopen
           cases h
           obtain ⟨r, hm, hk, hn, ha, hc, hp⟩ := aeadOpen_some hopen
-          obtain ⟨hre, hnl, _⟩ := envelope_reassembles henv
+          obtain ⟨hre, hnl, hml⟩ := envelope_reassembles henv
           have hv' : env.version = v := by
             by_cases hx : env.version = v
             · exact hx
             · exact absurd hx hv
-          refine ⟨r, hm, hk, ha, hp, ?_, ?_⟩
+          refine ⟨r, hm, hk, ha, hp, ?_, ?_, ?_⟩
           · rw [hraw, hre, hv', hn, hc]
           · rw [hn]; exact hnl
+          · rw [hre] at hml
+            simp only [List.length_cons, List.length_append, minLen, nonceLen, tagLen] at hml hnl ⊢
+            rw [hc]; omega
 
 /-- `openCursor` succeeds only on a minted, in-date cursor. -/
 theorem openCursor_ok {tbl : List SealRec} {key : Bytes} {ttl now : Int} {tok : Bytes} {who : Ident}
